@@ -26,13 +26,14 @@ def check(ctx):
     if quick:
         hs, fr, kn = ptgrun.make_jobs(progs, exes, ORACLE, True, '0,1:1', '0,1:1', (1, 2, 4), 2, 5, 2, 14, 16)
     else:
-        hs, fr, kn = ptgrun.make_jobs(progs, exes, ORACLE, False, '0,1:1,2:3', grid, (1, 2, 3, 4, 8), 2, 6, 3, 150, 240)
+        hs, fr, kn = ptgrun.make_jobs(progs, exes, ORACLE, False, '0,1:1,2:3', grid, (1, 2, 3, 4, 8), 2, 6, 3, 110, 200)
     ctx.notes.append('%d programs, %d variants; %d variants refused by the reference interpreter' % (len(progs), sum(len(p.variants) for p in progs), refused))
     R.run_jobs(hs, 'hsched-all-task-orders')
     R.run_jobs(fr, 'free-running-configuration-box')
     if kn:
         R.run_jobs(kn, 'recorded-findings', stop_on_violation=False)
     ctx.notes += R.notes
+    R.cleanup()
     return ctx.finish(RULE, ['task bodies and runtime actions atomic at the task level (primitives: E1 checks C07/C25)',
                              'single process, shared memory (hk-shm): write-back to a collection only in place',
                              'reference interpreter (engine/rt/ptgir.py) defines the valid-program semantics and the body function'])
